@@ -588,6 +588,47 @@ def gen_identity_block(rnd):
     return out
 
 
+def gen_wrap_block(rnd):
+    """Constant expressions whose exact integer value leaves the 256-bit range (products, sums, shifts, powers,
+    negative differences, complements), left on the stack, stored, or combined only by operations that do not
+    reduce again: whatever constant the optimizer emits for them must be the wrapped one and a valid PUSH operand."""
+    big = [MASK, MASK - 1, 1 << 255, (1 << 255) + 1, 1 << 128, (1 << 128) + 1, (1 << 200) - 1, 1 << 254]
+    small = [2, 3, 4, 5, 0x10, 0x100, 0xff]
+    out = []
+    h = 0
+    for _ in range(rnd.randrange(1, 4)):
+        r = rnd.random()
+        a, b = rnd.choice(big), rnd.choice(big + small)
+        if r < 0.3:
+            code = [("PUSH", hexv(a)), ("PUSH", hexv(b)), ("MUL", None)]
+        elif r < 0.5:
+            code = [("PUSH", hexv(a)), ("PUSH", hexv(b)), ("ADD", None)]
+        elif r < 0.6:
+            code = [("PUSH", hexv(rnd.choice(small))), ("PUSH", hexv(rnd.choice([0, 1]))), ("SUB", None)]
+        elif r < 0.72:
+            code = [("PUSH", hexv(a)), ("PUSH", hexv(rnd.choice([1, 2, 8, 0xff, 0x100]))), ("SHL", None)]
+        elif r < 0.82:
+            code = [("PUSH", hexv(rnd.choice([0x100, 0x101, 0x80]))), ("PUSH", hexv(rnd.choice([2, 3, 0x10]))), ("EXP", None)]
+        elif r < 0.9:
+            code = [("PUSH", hexv(rnd.choice([0, 1, 0xff, a]))), ("NOT", None)]
+        else:
+            code = [("PUSH", hexv(a)), ("PUSH", hexv(b)), ("MUL", None), ("PUSH", hexv(rnd.choice(small))), ("MUL", None)]
+        out += code
+        h += 1
+        k = rnd.random()
+        if k < 0.25:
+            out += [("PUSH", hexv(rnd.choice(SMALL_ADDRS))), (rnd.choice(["MSTORE", "SSTORE"]), None)]
+            h -= 1
+        elif k < 0.45 and h >= 2:
+            out.append((rnd.choice(["AND", "OR", "XOR", "DIV"]), None))
+            h -= 1
+        elif k < 0.55:
+            out += [("DUP%d" % (h + 1), None), (rnd.choice(["AND", "OR", "XOR"]), None)]
+    if rnd.random() < 0.5:
+        out += [("PUSH", "0"), ("POP", None)]       # slack, so that the rewritten block is accepted
+    return out
+
+
 def gen_tradeoff_block(rnd):
     """Fragments with alternatives that trade one cost for another (gas / bytes / instruction count): a value that
     can be duplicated or produced again (2-gas environment reads, zero pushes, one-byte and wide constants), a
@@ -627,8 +668,8 @@ def gen_tradeoff_block(rnd):
 
 
 def gen_block(rnd, kind=None):
-    kind = kind or rnd.choices(["rule", "grammar", "mem", "split", "deep", "dupterms", "symm", "overlap", "identity"],
-                               [4, 3, 3, 1.5, 0.7, 1.0, 0.8, 1.2, 0.6])[0]
+    kind = kind or rnd.choices(["rule", "grammar", "mem", "split", "deep", "dupterms", "symm", "overlap", "identity", "wrap"],
+                               [4, 3, 3, 1.5, 0.7, 1.0, 0.8, 1.2, 0.6, 0.6])[0]
     if kind == "rule":
         return gen_rule_block(rnd), kind
     if kind == "grammar":
@@ -674,6 +715,8 @@ def gen_block(rnd, kind=None):
         return gen_overlap_block(rnd), kind
     if kind == "identity":
         return gen_identity_block(rnd), kind
+    if kind == "wrap":
+        return gen_wrap_block(rnd), kind
     if kind == "dupterms":
         # the same term computed twice (operands in the other order for commutative operations, repeated loads /
         # hashes / environment reads), then combined or stored: exercises the unification of duplicated instructions
